@@ -104,6 +104,21 @@ CHECKS = {
         technique="Lean 4 proof (parser correct w.r.t. an inductive grammar, for all tables) + translator-regenerated table "
                   "with decide obligations + exhaustive operator-pair differential suite",
         ref="DESIGN.md §6 C02"),
+    "C16": dict(
+        text="Lean 4 theorems (CbProps/C16.lean) about the rendering functions the reference semantics uses: for every "
+             "integer, reading back the decimal rendering gives the number (hence injective); hexadecimal rendering is the "
+             "64-bit two's-complement pattern; padding never truncates, yields max(width, length) characters and keeps the "
+             "text as suffix; zero padding puts the sign first; doubled braces unescape to the original text; text without "
+             "% is passed verbatim by the printf machinery. Tie: ~450 boundary integers (every power of two and ten +-1) x "
+             "{println, {v}, :x :X :b :Nd :0Nd, %d %lld %Nd %0Nd %Nlld} x widths, and random ASCII/UTF-8 text, braces, %% %s "
+             "%c, surplus printf arguments, print without newline — model vs interpreter.",
+        note="Calibrated to the implementation where the property is silent: println writes arguments one at a time; a "
+             "sole literal is printed raw; surplus printf arguments are appended space-separated. Not generated: double "
+             "quotes/backslashes in literals (lexer has no escaped quote), too few printf arguments, the `-` flag, %x/%o/%u, "
+             "floating point. Listed findings: {v:05d} of a negative value, ?: inside interpolation.",
+        technique="Lean 4 proof (round-trip and padding laws by induction on digit lists) + exhaustive boundary-integer x "
+                  "format table run end-to-end",
+        ref="DESIGN.md §6 C16"),
 }
 
 PENDING = {}
